@@ -70,6 +70,8 @@ def gen_spec(rng: random.Random, *, allow_wait: bool = True, allow_collect: bool
             sc.append(["send", t, tgt, rng.choice([None, 1, 2])])
         if rng.random() < 0.15:
             sc.append(["stream", rng.choice(PLAIN)])
+        if rng.random() < 0.12 and any(a[0] == "gate" for a in sc):
+            sc.insert(0, ["on_cancel_stream", rng.choice(PLAIN)])  # reports on the stream when it is cancelled
         r = rng.random()
         if r < 0.35 and outs:
             sc.append(["ret", str(rng.choice(outs))])
@@ -174,7 +176,14 @@ def gen_fanin_spec(rng: random.Random) -> dict:
             "script": ([["gate"]] if rng.random() < 0.5 else []) + [["ret", rng.choice(["none", "stop"])]]}
     steps = [start, coll, sink]
     rng.shuffle(steps)
-    return {"steps": steps, "externals": []}
+    spec: dict[str, Any] = {"steps": steps, "externals": []}
+    if rng.random() < 0.35:
+        # value-equal events (same class, same payload, different identity), as equal user payloads are
+        spec["eq_events"] = True
+        for a in start["script"]:
+            if a[0] == "send":
+                a[3] = None
+    return spec
 
 
 def gen_retry_spec(rng: random.Random) -> dict:
@@ -183,16 +192,19 @@ def gen_retry_spec(rng: random.Random) -> dict:
     wait = rng.choice([0, 0, 2, 5])
     pol = rng.choice([{"kind": "attempts", "n": rng.randint(1, 4), "wait": wait},
                       {"kind": "chain", "n": rng.randint(2, 5), "waits": [3, 1, 2]},
+                      {"kind": "chain_exp", "n": rng.randint(3, 6), "first": rng.choice([1, 3])},
                       {"kind": "legacy", "n": rng.randint(1, 3), "wait": rng.choice([0, 1])},
                       {"kind": "delay", "d": rng.choice([2, 5, 7]), "wait": rng.choice([1, 2, 3])}, None])
-    worker = {"name": "s02", "accepts": [5], "nw": rng.randint(1, 3), "retry": pol,
-              "script": ([["gate"]] if rng.random() < 0.4 else []) +
+    # a backlog with time passing: later events wait in the queue while earlier ones work (sleep)
+    backlog = rng.random() < 0.3
+    worker = {"name": "s02", "accepts": [5], "nw": 1 if backlog else rng.randint(1, 3), "retry": pol,
+              "script": ([["sleep", rng.choice([1, 3, 4])]] if backlog else ([["gate"]] if rng.random() < 0.4 else [])) +
                         [rng.choice([["fail_until", n_fail, rng.randint(1, 9)], ["fail_always", rng.randint(1, 9)],
                                      ["fail_on_k", 2, rng.randint(1, 9)]]), ["ret", rng.choice(["6", "stop", "none"])]]}
     second = {"name": "s04", "accepts": [6], "nw": 1, "retry": rng.choice([None, {"kind": "attempts", "n": 2, "wait": 0}]),
               "script": [rng.choice([["fail_always", rng.randint(1, 9)], ["fail_until", 1, 3], ["yield"]]), ["ret", rng.choice(["stop", "none"])]]}
     start = {"name": "s00", "accepts": [0], "nw": 1, "retry": None,
-             "script": [["send", 5, None, rng.choice([None, 1, 2])] for _ in range(rng.randint(1, 3))] + [["ret", "none"]]}
+             "script": [["send", 5, None, rng.choice([None, 1, 2])] for _ in range(rng.randint(2, 3) if backlog else rng.randint(1, 3))] + [["ret", "none"]]}
     steps = [start, worker, second]
     hk = rng.random()
     if hk < 0.7:
